@@ -19,7 +19,7 @@ func PushScenario(t *rapid.T) sim.Scenario {
 	sc.Cfg.AllowPush = rapid.IntRange(0, 9).Draw(t, "allowpush") != 0
 	sc.Cfg.Concurrency = pick(t, "limit", []int{1, 2, 32})
 	sc.Cfg.Salt = rapid.Uint64().Draw(t, "salt")
-	sc.Cfg.Chan = pick(t, "chan", []string{"direct", "pipe"})
+	sc.Cfg.Chan = pick(t, "chan", []string{"direct", "pipe", "fragile"})
 	sc.Cfg.Yield = pick(t, "yield", []int{0, 0, 2})
 	if rapid.IntRange(0, 9).Draw(t, "nohooks") == 0 {
 		sc.Cfg.NoHooks = true
